@@ -1300,9 +1300,16 @@ func conv(t_dst, t_src types.Type, x value) value {
 			// simulate the memory layout of a real
 			// compiled implementation.
 			//
-			// To at least preserve type-safety, we'll
-			// just return the zero value of the
-			// destination type.
+			// The boxed cell the pointer was made from is handed
+			// back: exact for the round trip *T -> unsafe.Pointer
+			// -> *T (atomic.Pointer[T], LoadPointer/StorePointer);
+			// a reinterpretation as another type fails at its first
+			// use as an engine fault, i.e. inconclusive, not silently.
+			if p, ok := x.(unsafe.Pointer); ok && p != nil {
+				if _, isPtr := ut_dst.(*types.Pointer); isPtr {
+					return (*value)(p)
+				}
+			}
 			return zero(t_dst)
 		}
 
